@@ -164,7 +164,7 @@ Cmd(e) ==
   /\ e.nBlk <= left
   /\ cmdAt' = cmdAt + e.nBlk /\ left' = left - e.nBlk
   /\ dec' = [dec EXCEPT ![Len(dec)].cmds = Append(@, [tag |-> e.tag, flags |-> e.flags, addr |-> e.addr, cnt |-> e.cnt, dat |-> e.dat,
-                                                       payload |-> e.payload, payloadLen |-> e.payloadLen, nBlk |-> e.nBlk])]
+                                                       payloadLen |-> e.payloadLen, nBlk |-> e.nBlk])]
   /\ UNCHANGED <<st, hdr, cur, sec, needCert, hm, body, cov, certEnd, sigEnd, macSum>>
 
 SectionEnd(e) ==
